@@ -249,12 +249,20 @@ func (q *Quadtree) KNearestMatching(buf []orb.Pointer, p orb.Point, k int, f Fil
 		return nil
 	}
 
+	// The heap holds at most k+1 items and never more than the tree stores. Do not pre-allocate
+	// for a k far beyond that: k+1 overflows for k = math.MaxInt and make() panics for huge k
+	// ("give me everything within maxDistance"). Push appends, so a small start is enough.
+	capacity := k
+	if capacity > 63 {
+		capacity = 63
+	}
+
 	b := q.bound
 	v := &nearestVisitor{
 		point:          p,
 		filter:         f,
 		k:              k,
-		maxHeap:        make(maxHeap, 0, k+1),
+		maxHeap:        make(maxHeap, 0, capacity+1),
 		closestBound:   &b,
 		maxDistSquared: math.MaxFloat64,
 	}
